@@ -1,5 +1,6 @@
 //! Configuration catalogue: which drivers run for which property, with which bounds.
 use crate::drivers::c01::{self, Mode};
+use crate::drivers::c02::{self, Kind};
 use crate::drivers::common::{Cfg, PolySpec};
 use crate::engine::explore::{Limits, Verdict};
 use crate::schemes::*;
@@ -112,6 +113,64 @@ fn c01_family<S: Sch>(t: Tier, seed: u64, out: &mut Vec<Entry>) {
     }
 }
 
+fn c02_family<S: Sch>(t: Tier, seed: u64, out: &mut Vec<Entry>) {
+    let name = S::NAME;
+    let sym = "polynomial coefficients/evaluations, points, sponge challenges, blinding randomness, the perturbation delta (!= 0), the replacement polynomial";
+    let quick = t == Tier::Quick;
+    let sup = std_size::<S>(t, 0).supported;
+    let len = if S::UNIVARIATE { sup } else { 3 };
+    let mk = |polys: Vec<PolySpec>, hiding: usize| -> Cfg {
+        let mut c = Cfg::new(std_size::<S>(t, hiding), polys);
+        c.seed = seed;
+        c
+    };
+    let mut add = |id: &str, cfg: Cfg, mode: Mode, kind: Kind, twin: bool| {
+        let b = format!("{:?}; polys {:?}; points {}; queries {:?}; perturbation {:?}", cfg.sz, cfg.polys, cfg.npoints, cfg.queries, kind);
+        let c2 = cfg.clone();
+        let mut en = e(format!("{}/{}", name, id), t, sym, b, move || c02::perturbed::<S>(&c2, mode, kind, twin));
+        en.twin = twin;
+        if quick {
+            en.lim.wall_s = 45.0;
+        }
+        out.push(en);
+    };
+    let kzg_like = matches!(name, "marlin" | "sonic" | "pst13");
+    let lincode = matches!(name, "ligero-uni" | "ligero-ml" | "brakedown");
+    // value perturbations
+    add("1p1z-val", mk(vec![PolySpec::new(len)], 0), Mode::Single, Kind::Value(0), false);
+    add("2p1z-val@1", mk(vec![PolySpec::new(2), PolySpec::new(2)], 0), Mode::Single, Kind::Value(1), false);
+    add("1p2z-batch-val@1", mk(vec![PolySpec::new(2)], 0).points(2, vec![(0, 0), (0, 1)]), Mode::Batch, Kind::Value(1), false);
+    if S::HIDING && name != "hyrax" {
+        let mut c = mk(vec![PolySpec::new(2).hide(1)], 1);
+        c.rng_nonzero = true;
+        add("1p1z-hide1-val", c, Mode::Single, Kind::Value(0), false);
+    }
+    if S::BOUNDS {
+        add("1p1z-bound-val", mk(vec![PolySpec::new(2).bound(1)], 0), Mode::Single, Kind::Value(0), false);
+    }
+    if !quick {
+        add("2p2z-batch-val@2", mk(vec![PolySpec::new(2), PolySpec::new(2)], 0).points(2, vec![(0, 0), (1, 0), (0, 1), (1, 1)]), Mode::Batch, Kind::Value(2), false);
+    }
+    // point perturbations (schemes whose challenges do not depend on the point)
+    if kzg_like || lincode {
+        add("1p1z-point", mk(vec![PolySpec::new(len)], 0), Mode::Single, Kind::Point(0), false);
+        if !S::UNIVARIATE {
+            add("1p1z-point@1", mk(vec![PolySpec::new(len)], 0), Mode::Single, Kind::Point(1), false);
+        }
+    }
+    // commitment replaced by the commitment of another polynomial
+    if kzg_like || lincode {
+        add("1p1z-comm", mk(vec![PolySpec::new(2)], 0), Mode::Single, Kind::Comm, false);
+        if !quick {
+            add("1p2z-batch-comm", mk(vec![PolySpec::new(2)], 0).points(2, vec![(0, 0), (0, 1)]), Mode::Batch, Kind::Comm, false);
+        }
+    }
+    // vacuity twin: the negated assertion must be violated
+    if name != "hyrax" {
+        add("twin-1p1z-val", mk(vec![PolySpec::new(2)], 0), Mode::Single, Kind::Value(0), true);
+    }
+}
+
 pub fn catalogue(prop: &str, t: Tier, seed: u64) -> Vec<Entry> {
     let mut out = vec![];
     match prop {
@@ -124,6 +183,15 @@ pub fn catalogue(prop: &str, t: Tier, seed: u64) -> Vec<Entry> {
             c01_family::<LigeroUni>(t, seed, &mut out);
             c01_family::<LigeroMl>(t, seed, &mut out);
             c01_family::<Brakedown>(t, seed, &mut out);
+        }
+        "C02" => {
+            c02_family::<Marlin>(t, seed, &mut out);
+            c02_family::<Sonic>(t, seed, &mut out);
+            c02_family::<Pst13>(t, seed, &mut out);
+            c02_family::<Hyrax>(t, seed, &mut out);
+            c02_family::<LigeroUni>(t, seed, &mut out);
+            c02_family::<LigeroMl>(t, seed, &mut out);
+            c02_family::<Brakedown>(t, seed, &mut out);
         }
         _ => {}
     }
